@@ -68,6 +68,15 @@ def feel(e):
         return 'true' if e[1] else 'false'
     if k == 'num':
         return str(e[1]) if e[1] >= 0 else '(%d)' % e[1]
+    if k == 'dec':                                   # m * 10^e written as a plain decimal literal
+        m, ex = e[1], e[2]
+        digits = str(abs(m))
+        if ex >= 0:
+            text = digits + '0' * ex
+        else:
+            digits = digits.rjust(-ex + 1, '0')
+            text = digits[:ex] + '.' + digits[ex:]
+        return text if m >= 0 else '(-%s)' % text
     if k == 'str':
         return fstr(e[1])
     if k == 'name':
@@ -139,7 +148,9 @@ def coq(e):
     if k == 'bool':
         return '(EBool %s)' % cb(e[1])
     if k == 'num':
-        return '(ENum (%d))' % e[1]
+        return '(enum (%d))' % e[1]
+    if k == 'dec':
+        return '(ENum (Base.Dec.of_Z (%d) (%d)))' % (e[1], e[2])
     if k == 'str':
         return '(EStr %s)' % cstr(e[1])
     if k == 'name':
@@ -222,6 +233,8 @@ class Gen:
 
     def num_lit(self):
         r = self.rng
+        if r.random() < 0.2:      # decimal literals: fractions, trailing zeros, values that do not divide evenly
+            return ('dec',) + r.choice([(5, -1), (25, -2), (250, -2), (1, -1), (15, -1), (-75, -2), (3, -3), (1000, -2), (125, -3), (7, -1), (-5, -1), (33, -1)])
         return ('num', r.choice([0, 1, 2, 3, 4, 5, 6, 10, -1, -2, -3, 7, 12, 100]))
 
     def str_lit(self):
@@ -352,9 +365,8 @@ class Gen:
             op = r.choice(['Add', 'Sub', 'Mul', 'Add', 'Sub', 'Mul', 'Div', 'Exp'])
             a = self.gen('num', d - 1, env)
             b = self.gen('num', d - 1, env) if op != 'Exp' else ('num', r.choice([0, 1, 2, 3]))
-            if op == 'Div' and r.random() < 0.7:
-                b = ('num', r.choice([1, -1, 2]))
-                a = ('bin', 'Mul', a, b)
+            if op == 'Div' and r.random() < 0.3:
+                b = ('num', r.choice([1, -1, 2, 3, 7]))
             return ('bin', op, a, b)
         if c < 0.65:
             return ('neg', self.gen('num', d - 1, env))
